@@ -227,4 +227,101 @@ def c31(ctx):
                         "client subscriptions carry an identifier so that the merged answer of Subscribers names the (client, filter) pairs"]
 
 
-FAMILY = {"C41": c41, "C31": c31}
+# ------------------------------------------------------------------------------------------ C37
+def c37(ctx):
+    # (a) the model: all schedules, exact and slack server, K = 0; two faulty servers refuted
+    def mc(job):
+        cfg, inv = job
+        return _design(ctx, "Keepalive", cfg, expect_violation=inv, workers=2)
+    rs = _parallel(mc, [("Keepalive.cfg", None), ("Keepalive_zero.cfg", None), ("Keepalive_slack.cfg", None),
+                        ("Keepalive_bad.cfg", "ClosedOnlyWhenIdle"), ("Keepalive_badlate.cfg", "OpenOnlyWhileFresh")], n=5)
+    states = sum(r.distinct for r in rs[:3])
+    trans = sum(r.generated for r in rs[:3])
+    # (b) the schedules and their nominal outcome, written by TLC from the same state machine
+    tabs = {}
+    for cfg in ("GenKeepalive.cfg", "GenKeepalive_zero.cfg"):
+        out = ctx.path("gen", cfg[:-4] + ".json")
+        g = ctx.tlc("GenKeepalive", cfg, name="gen_" + cfg[:-4], workers=1, timeout=600, env={"VERIF_OUT": out})
+        g.require_ok("schedule table " + cfg)
+        tabs[cfg] = out
+        states, trans = states + g.distinct, trans + g.generated
+    nsched = len(json.load(open(tabs["GenKeepalive.cfg"])))
+    vc = _vcomp(ctx)
+    variants = ["v4ping"] if ctx.quick else ["v4ping", "v5ping", "v4pub"]
+
+    def play(variant, ids, tag):
+        tr = ctx.path("traces", "ka_%s_%s.ndjson" % (variant, tag))
+        ctx.run([vc, "keepalive", tabs["GenKeepalive.cfg"], tabs["GenKeepalive_zero.cfg"], tr, variant] + ids, timeout=300)
+        v, r = _judge(ctx, "TraceKeepalive", "TraceKeepalive.cfg", "ka_%s_%s" % (variant, tag), {"VERIF_TRACE": tr})
+        recs = {json.loads(x)["id"]: json.loads(x) for x in open(tr)}
+        return v["verdicts"], recs, r
+
+    exercised, runs, packets, samples, unexercised = set(), 0, 0, [], []
+    for variant in variants:
+        verdicts, recs, r = play(variant, [], "1")
+        states, trans = states + r.distinct, trans + r.generated
+        runs += len(verdicts)
+        again = []
+        for v in verdicts:
+            packets += len(recs[v["id"]]["sends"])
+            if _c37_final(ctx, v, recs):
+                continue
+            if v["verdict"] == "late" or not v["asplanned"]:
+                again.append(v["id"])       # load can fake "late" / spoil a schedule: run it once more
+            else:
+                exercised.add((variant, v["k"], tuple(recs[v["id"]]["plan"])))
+                if len(samples) < 4 and len(recs[v["id"]]["plan"]) in (1, 2) and v["k"] > 0:
+                    samples.append({"run": recs[v["id"]], "tlc": v})
+        if again:
+            ctx.log("%s: %d of %d runs late or off schedule, running them again" % (variant, len(again), len(verdicts)))
+            verdicts2, recs2, r = play(variant, again, "2")
+            states, trans = states + r.distinct, trans + r.generated
+            for v in verdicts2:
+                if _c37_final(ctx, v, recs2):
+                    continue
+                if v["verdict"] == "late":
+                    ctx.violation("keepalive %d s, schedule %s (quarters): connection still open %d ms after the last packet "
+                                  "(limit 1.5 x K = %d ms, tolerance 200 ms), in two runs" %
+                                  (v["k"], recs2[v["id"]]["plan"], v["idle_min"], 1500 * v["k"]), {"run": recs2[v["id"]], "tlc": v})
+                elif not v["asplanned"]:
+                    unexercised.append(v["id"])
+                else:
+                    exercised.add((variant, v["k"], tuple(recs2[v["id"]]["plan"])))
+    ctx.log("%d runs judged by TLC; %d (keepalive, schedule) pairs exercised as planned; %d could not be kept on schedule" %
+            (runs, len(exercised), len(unexercised)))
+    if len(unexercised) > runs // 10:
+        raise Inconclusive("machine too loaded: %d schedules could not be replayed on time twice" % len(unexercised))
+    if unexercised:
+        ctx.notes.append("not replayed on schedule (twice): %s" % unexercised)
+    ctx.cov.update(
+        _level="model_checking", states=states, transitions=trans, exhaustive=True,
+        traces_validated_against_impl=runs, evaluations=packets + runs, distinct_nontrivial=len(exercised),
+        rule="Keepalive.tla model-checked for all %d schedules of <= 4 gaps in {5,7} quarters of K (exact server, slack server, K = 0; two faulty "
+             "servers refuted); TLC wrote the schedules with their outcome (GenKeepalive); each schedule replayed in REAL TIME against the real "
+             "broker (mqtt.New + EstablishConnection over net.Pipe, CONNECT keepalive K in {0,1,2,3} s, then %s at the scheduled moments), "
+             "write times and observed close time recorded in ms; TLC (TraceKeepalive) judges each run with the property's predicates: closed "
+             "with idle < 1.5K - 0.2 s (idle measured from before the last successful write) = early = violation outright; open with idle "
+             ">= 1.5K + 0.2 s = late, re-run once and counted only if it repeats; runs whose gaps left the planned side of 1.5K are re-run. "
+             "distinct_nontrivial = (packet kind, K, schedule) triples exercised as planned and judged ok (runs attributed to a known finding are not counted)." % (nsched, "/".join(variants)),
+        samples=samples, schedules=nsched, keepalives=[0, 1, 2, 3], variants=variants)
+    ctx.assumptions += ["wall-clock measurement with 200 ms tolerance; load can delay an observed close but never advance it",
+                        "a completed write on net.Pipe means the broker has read the packet"]
+
+
+def _c37_final(ctx, v, recs):
+    """verdicts that are final whatever the load: early close (violation or named finding), close with K = 0"""
+    rec = recs[v["id"]]
+    if v["verdict"] == "early":
+        if v["deviation"] and ctx.known(v["deviation"]):
+            return True
+        ctx.violation("keepalive %d s, schedule %s (quarters): closed only %d ms after the last packet had been written "
+                      "(1.5 x K = %d ms, tolerance 200 ms)" % (v["k"], rec["plan"], v["idle_max"], 1500 * v["k"]), {"run": rec, "tlc": v})
+        return True
+    if v["verdict"] == "closed-k0":
+        ctx.violation("keepalive 0, schedule %s: the broker closed the connection after %d ms of silence" % (rec["plan"], v["idle_min"]),
+                      {"run": rec, "tlc": v})
+        return True
+    return False
+
+
+FAMILY = {"C41": c41, "C31": c31, "C37": c37}
